@@ -1,9 +1,9 @@
 package main
 
 import (
-	"net/url"
 	"encoding/json"
 	"fmt"
+	"net/url"
 	"sort"
 	"strings"
 
@@ -304,6 +304,49 @@ func c08ContainerProbes(c *Ctx) {
 				c.Fail(Failure{Kind: "oracle", Sig: "C08:silent-failure", What: fmt.Sprintf("%s designates nothing in the root document but ExpandSpec returned no error", ptr), Case: cs, Impl: clip(res.Out.Text())})
 			case designates && res.Err != nil:
 				c.Fail(Failure{Kind: "oracle", Sig: "C08:spurious-error", What: fmt.Sprintf("%s designates an object but ExpandSpec fails: %v", ptr, res.Err), Case: cs})
+			}
+			if t.kind != "schema" {
+				continue
+			}
+			// the same probe through ExpandSchema: against the typed root (held only in the resolution cache), and
+			// with the probed definition as its own root
+			typedRoot, derr := decodeSwagger(w.Docs[w.Root])
+			if derr == nil {
+				var sch spec.Schema
+				_ = json.Unmarshal([]byte(wire.ObjV(wire.M("type", wire.StrV("object")), wire.M("properties", wire.ObjV(wire.M("p", wire.ObjV(wire.M("$ref", wire.StrV(ptr))))))).Text()), &sch)
+				var eerr error
+				pan := safely(func() { eerr = spec.ExpandSchema(&sch, typedRoot, nil) })
+				c.Hit(fmt.Sprintf("probe:ExpandSchema-typed-root:designates=%v", designates))
+				switch {
+				case pan != "":
+					c.Fail(Failure{Kind: "crash", Sig: "C04:panic", What: "ExpandSchema against a typed root panicked on " + ptr + ": " + clip(pan), Case: cs})
+				case !designates && eerr == nil:
+					c.Fail(Failure{Kind: "oracle", Sig: "C08:silent-failure", What: ptr + " designates nothing in the typed root but ExpandSchema returned no error", Case: cs})
+				}
+			}
+			if len(t.toks) == 3 && t.toks[0] == "definitions" {
+				if def, ok := refgraph.Eval(w.Docs[w.Root], t.toks[:2]); ok && def.Kind == wire.Obj {
+					_, has := def.Get(t.toks[2])
+					own := def
+					props, _ := own.Get("properties")
+					if props.Kind != wire.Obj {
+						props = wire.ObjV()
+					}
+					own = own.Set("properties", props.Set("zzprobe", wire.ObjV(wire.M("$ref", wire.StrV("#/"+refgraph.PtrEscape(t.toks[2]))))))
+					var sch spec.Schema
+					if json.Unmarshal([]byte(own.Text()), &sch) == nil {
+						var eerr error
+						pan := safely(func() { eerr = spec.ExpandSchema(&sch, nil, nil) })
+						c.Hit(fmt.Sprintf("probe:ExpandSchema-own-root:designates=%v", has))
+						cs2 := map[string]interface{}{"schema": json.RawMessage(own.Text()), "probe": "#/" + t.toks[2], "entry": "ExpandSchema(schema, nil, nil)"}
+						switch {
+						case pan != "":
+							c.Fail(Failure{Kind: "crash", Sig: "C04:panic", What: "ExpandSchema with the schema as its own root panicked on #/" + t.toks[2] + ": " + clip(pan), Case: cs2})
+						case !has && eerr == nil:
+							c.Fail(Failure{Kind: "oracle", Sig: "C08:silent-failure", What: "#/" + t.toks[2] + " designates nothing in the schema but ExpandSchema returned no error", Case: cs2})
+						}
+					}
+				}
 			}
 		}
 	}
